@@ -44,6 +44,11 @@ def instances(tier):
     for ph in sh["phases"]:
         out.append(Instance("C05", "sys_common:s_real_loop", dict(shape=sh, oracle="c05", opts={"phase": ph}), name="RL/mux-input-inactive@" + ph,
                             uf=True, cover=["solved"], weight=20))
+    from ..shapes import variants as _variants
+    for sid, shape in _variants().items():
+        if ['by-rail/mux', 'hole/mux'] is not None and sid not in ['by-rail/mux', 'hole/mux']:
+            continue
+        out.append(Instance("C05", "sys_common:s_run", dict(shape=shape, oracle="c05"), name="S/var/" + sid, uf=True, cover=["solved"], weight=20))
     if tier == "thorough":
         for sid, sh in shapes.enumerate_mux().items():
             out.append(Instance("C05", "sys_common:s_run", dict(shape=sh, oracle="c05"), name="S/enum/" + sid, uf=True, cover=["solved"],
